@@ -306,7 +306,12 @@ def motl_df(rows):
     data["phi"] = rows["phi"].copy()
     data["theta"] = rows["theta"].copy()
     data["psi"] = rows["psi"].copy()
-    return pd.DataFrame(data, columns=COLS)
+    df = pd.DataFrame(data, columns=COLS)
+    from .. import motlgen
+    kind = getattr(motlgen, "_FORCED", None)
+    if kind and kind != "default" and n:
+        df.index = motlgen.index_labels(n, kind)   # the same list as sort_values / a row selection leaves it behind
+    return df
 
 
 # =================================================================================================
@@ -1118,6 +1123,19 @@ def families(tier, seed):
     small = [c for c in ch_m if c[0] != "blk"][:: (2 if tier == "quick" else 6)] + [c for c in ch_m if c[0] == "blk" and c[2] - c[1] > 97 or c[0] == "blk" and tier == "quick"]
     small_r = [c for c in ch_r if c[0] != "blk"][:: (2 if tier == "quick" else 6)] + [c for c in ch_r if c[0] == "blk" and c[2] - c[1] > 97 or c[0] == "blk" and tier == "quick"]
     exp_common = ("-coordinate", "-origin-zero", "-angles-inverse", "-tomo-name", "-subtomo-name", "-class", "-halfset")
+    fams = _families(tier, seed, pm, pr, ch_m, ch_r, small, small_r, exp_common)
+    from ..motlgen import with_row_index_kinds
+    byname = {f.name: f for f in fams}
+    # particle tables whose row labels are not 0..n-1 (sorted / filtered lists): plain and formatted names, in memory and via file
+    sel = lambda c: c[0][2].endswith(("plain", "both")) and c[0][1] == 2.5 and c[0][3] == 1.0   # noqa: E731
+    fams.append(with_row_index_kinds(byname["export-memory"], select=sel, kinds=("gapped", "reversed"), expect=("export-tomo-name", "export-coordinate")))
+    fams.append(with_row_index_kinds(byname["export-file"], select=sel, kinds=("gapped", "reversed"), expect=("file-tomo-name", "file-coordinate")))
+    fams.append(with_row_index_kinds(byname["roundtrip"], select=lambda c: c[0][2].endswith(("plain", "both")) and c[0][1] == 2.5 and c[0][5] == "auto",
+                                     kinds=("gapped", "reversed"), expect=("roundtrip-tomo", "roundtrip-position")))
+    return fams
+
+
+def _families(tier, seed, pm, pr, ch_m, ch_r, small, small_r, exp_common):
     return [
         Family("export-memory", _space(_cfgs_export(tier, False, "ctor"), ch_m, seed), _guard(ex_export_mem),
                describe=_describe(("version", "pixel_size", "format", "binning", "args_at")),
